@@ -139,6 +139,11 @@ static size_t decode_path(const DecApi& A, int path, const uint8_t* f, size_t n,
     }
 }
 
+// KF-C04-inplace-margin (open finding): ZSTD_decompressionMargin() assumes that no Compressed_Block is as large as what it
+// regenerates (true for every frame the bundled compressor emits, not required by the format). For frames that have such a
+// block the in-place path may report dstSize_tooSmall; that exact shape is excluded from the in-place path and counted.
+static bool g_expanding_block = false;
+static void note_blocks(void*, const edu_event_t* ev) { if (ev->kind == EDU_EV_BLOCK && ev->block_type == 2 && ev->block_size >= ev->block_regen) g_expanding_block = true; }
 static void all_paths(vf::Ctx& c, const uint8_t* f, size_t n, const std::vector<uint8_t>& dict, const std::vector<uint8_t>& expect, bool magicless, bool must_accept, const char* origin, unsigned nframes = 1) {
     vf::Tape& t = c.t;
     size_t ichunk = (size_t)t.range(1, 5000), ochunk = (size_t)t.range(1, 140000);
@@ -153,6 +158,7 @@ static void all_paths(vf::Ctx& c, const uint8_t* f, size_t n, const std::vector<
             if (vi > 0 && p != P_ONESHOT && p != P_STREAM && !t.chance(45)) continue;
             if (p == P_STREAM_TINY && n > 60000) continue;
             if (nframes > 1 && (p == P_STABLE_OUT || p == P_CONTINUE)) continue;   // these two paths decode exactly one frame per session
+            if (p == P_INPLACE && g_expanding_block) { if (vi == 0) c.label("excluded:KF-C04-inplace-margin"); continue; }
             std::vector<uint8_t> out;
             size_t r = decode_path(A, p, f, n, dict, expect.size(), out, ichunk, ochunk, magicless);
             if (r == NA) continue;   // path not applicable
@@ -187,10 +193,11 @@ void vf_case(vf::Ctx& c) {
         frame = sy.bytes; x = sy.content;
         origin = "synth";
         c.note("synth{%s} ", sy.desc.c_str());
+        if (const char* dp = getenv("VF_C04_DUMP")) { FILE* df = fopen(dp, "wb"); if (df) { fwrite(frame.data(), 1, frame.size(), df); fclose(df); } }   // triage aid
         for (auto& l : sy.features) c.label("synth:" + l);
         // three-way: the synthesiser's own expected bytes vs R. A disagreement between the two independent sides is a machinery bug.
         vf::Buf o(x.size() + 16);
-        edu_opts_t eo; memset(&eo, 0, sizeof eo); eo.strict = 1;
+        edu_opts_t eo; memset(&eo, 0, sizeof eo); eo.strict = 1; eo.cb = note_blocks; g_expanding_block = false;
         edu_result_t rr = edu_decompress(o.p, o.n, frame.data(), frame.size(), nullptr, 0, &eo);
         if (!rr.ok || rr.produced != x.size() || (x.size() && memcmp(o.p, x.data(), x.size()))) {
             c.label("MACHINERY:synth_vs_R_disagree");
@@ -234,7 +241,7 @@ void vf_case(vf::Ctx& c) {
         mutated = true;
     }
     std::vector<uint8_t> spec(x.size() + (mutated ? (1u << 20) : 16));
-    edu_opts_t eo; memset(&eo, 0, sizeof eo); eo.strict = 1; eo.magicless = magicless;
+    edu_opts_t eo; memset(&eo, 0, sizeof eo); eo.strict = 1; eo.magicless = magicless; eo.cb = note_blocks; g_expanding_block = false;
     edu_result_t rr = edu_decompress(spec.data(), spec.size(), frame.data(), frame.size(), dict.empty() ? nullptr : dict.data(), dict.size(), &eo);
     if (!rr.ok) {
         if (mutated) { c.label("mutant_rejected_by_R(nothing asserted beyond C03)"); return; }
@@ -252,7 +259,7 @@ void vf_case(vf::Ctx& c) {
 void vf_fuzz_case(vf::Ctx& c) {
     std::vector<uint8_t> bytes = c.t.rest_bytes();
     std::vector<uint8_t> spec(1u << 20);
-    edu_opts_t eo; memset(&eo, 0, sizeof eo); eo.strict = 1;
+    edu_opts_t eo; memset(&eo, 0, sizeof eo); eo.strict = 1; eo.cb = note_blocks; g_expanding_block = false;
     edu_result_t rr = edu_decompress(spec.data(), spec.size(), bytes.data(), bytes.size(), nullptr, 0, &eo);
     if (!rr.ok || rr.nframes == 0) { c.label("R_rejects"); return; }
     spec.resize(rr.produced);
